@@ -217,6 +217,10 @@ def strat_product():
 def strat_cli():
     # header lines are shown verbatim, so a line that imitates the report's own '(xxx) ' prefixes cannot be told apart by any reader of the report
     hdr = st.text(alphabet=PRINTABLE, min_size=1, max_size=40).filter(lambda s: s.strip() != '' and not re.match(r'^\s*SSH-\d\.', s) and s == s.rstrip() and not re.match(r'^\s*[(#]', s))
+    # an identification string starts at the first byte of its line: indented look-alikes are header text
+    indented = st.tuples(st.sampled_from([' ', '  ', '    ']), st.sampled_from(['SSH-2.0-Gateway_1.0 connections are logged', 'SSH-2.0-OpenSSH_8.0', 'SSH-1.99-dropbear_2020.81', 'SSH-1.5-x', 'SSH-2.0-'])).map(lambda t: t[0] + t[1])
+    hdr = st.one_of(hdr, hdr, hdr, indented)
+
     def build(t):
         line, headers, eol, seg = t
         return {'kind': 'cli', 'line': line, 'header': headers, 'eol': eol, 'segment': seg}
